@@ -253,3 +253,19 @@ _m("C17",
    "line splitting semantics of lines().",
    "format-descriptor extraction from symbolic terms + comparison with the specification table",
    "exhaustive static extraction of the format constants actually used by the code in every configuration")
+
+_m("C02",
+   "Structural clauses of the write path, in every configuration — the round-trip equality itself needs execution. (a) Digest/"
+   "sink agreement: in every writer body, each IntegrityOpts::input is fed exactly what the sink accepted — for a write()-like "
+   "sink the slice X[..n] with n the Ok payload of that write of X; for an all-or-error sink (mapped write helper, proved to "
+   "return Ok(buf.len()) only after copying the whole buf) the whole X and only on the sink's Ok edge — and no sink write goes "
+   "undigested. (b) The async staging buffer equals the caller's chunk when the blocking closure is created (set_len(buf.len()) "
+   "then a full copy_from_slice(buf), both dominating the spawn, no other mutation). (c) The keyed writers' byte counters do "
+   "`counter += amount reported by the inner writer` and return that amount, passing the caller's buffer unchanged. (d) The temp "
+   "file is persisted to content_path(cache, builder.result()), close returns that digest, and the only non-declared integrity "
+   "ever indexed is Some(publication result). (e) One-shot writers write exactly their data parameter with one write_all and "
+   "declare data.len(). (f) The pre-allocation is reached only when a dominating comparison proves the declared size ≥ 1.",
+   "Byte equality for particular inputs, the 1 MiB boundary arithmetic, behaviour of write_all loops inside std, keys with unusual "
+   "characters (opaque by C15), the read side (C01).",
+   "identity value-flow between digest input and sink + gate-cut reachability + symbolic length/staging checks",
+   "exhaustive static analysis of the write path's structure in every configuration (necessary conditions)")
